@@ -345,7 +345,7 @@ plan('C13', jobs=_c13,
 
 
 def _c18(tier):
-    a = '--fam track,copy,large' + (' --caps ' + ALLCAPS if tier == 'thorough' else '')
+    a = '--fam track,copy,large,zst' + (' --caps ' + ALLCAPS if tier == 'thorough' else '')
     m = '--fam track --caps 0,1,2,3,4 --max-steps 48'
     jobs = hist_jobs('C18', tier, a, a, engines=('map',), miri=(8, 200, 2000, {'map': m}), mirirel=(8, 200, 2000, {'map': m}),
                      asan=(8, 3_000_000, {'map': '--fam raw,track --caps 0,1,2,3,4,8 --no-forget'}),
@@ -364,7 +364,7 @@ def _c18(tier):
 
 plan('C18', jobs=_c18,
      rule=HIST_RULE + ' In these histories plain insert is replaced by insert_unchecked whenever the documented precondition holds (map not full, or key present); when it does not hold the call is skipped, never made. Second engine: a single-shot panic injected at every user-callback tick of insert_unchecked (inside its contract) on all slot layouts over 4 classes for N in 0..=4 and on random larger states, survivors validated under the ledger. Third engine: get_disjoint_unchecked_mut on ALL pairwise-different key tuples of length 0..=4 over 5 keys on all slot layouts over a 4-class universe (N in {0,1,2,3,4,8}), compared position by position with get_mut.',
-     required=['map/insert_unchecked:hit-first', 'map/insert_unchecked:hit-last', 'map/insert_unchecked:miss:partial', 'map/insert_unchecked:hit-middle:full',
+     required=['map/zst-pairs', 'map/insert_unchecked:hit-first', 'map/insert_unchecked:hit-last', 'map/insert_unchecked:miss:partial', 'map/insert_unchecked:hit-middle:full',
                'dj/get_disjoint_unchecked_mut:J=2', 'dj/get_disjoint_unchecked_mut:J=4', 'dj/get_disjoint_unchecked_mut:J=65', 'dj/big-map(N=300)', 'pf/fault:insert_unchecked:K::eq', 'pf/fault:insert_unchecked:K::drop', 'pf/fault:insert_unchecked:V::drop'],
      exhaustive_subspace='get_disjoint_unchecked_mut: all slot layouts over a 4-class universe x all pairwise-different key tuples of length 0..=4',
      assumptions=NATIVE_ASSUME + SAN_ASSUME + ['the harness calls the unsafe functions only inside their documented precondition; outside it any behaviour is the caller\'s fault'],
@@ -463,7 +463,8 @@ def _c03(tier):
 
 plan('C03', jobs=_c03,
      rule='A case is one call of one safe insertion entry point on one FULL container (or one overflowing collect). Full states are reached through random fill/remove/refill histories, so full maps occur in many slot layouts; per state every entry point (insert, insert_key_value, checked_insert, entry.or_insert / or_insert_with / or_insert_with_key / or_default / and_modify.or_insert, VacantEntry::insert | OccupiedEntry::insert, Set::insert, Set::replace, Set::extend with one and with two items) is called once with an absent key and once with a present key; Map/Set collect are fed more than N distinct keys with repeats sprinkled in (must panic) and more than N items with at most N distinct keys (must succeed); with_capacity(c) for c = N and c != N. Capacities N in {0,1,2,3,4,8,16}, element families track (ledger), copy, raw (String/Box), heap (faultable heap-owning), large (128/512-byte), zst (zero-sized key and value). Distinct by (family, N, slot order, seed history); every case is non-trivial.',
-     required=['insert:absent:N=0', 'insert:absent:N=4', 'insert:absent:N=8+', 'insert:present:N=4', 'insert_key_value:absent:N=1', 'checked_insert:absent:N=2', 'checked_insert:present:N=3',
+     required=['overflow-source-hint:exact', 'overflow-source-hint:(0,None)', 'overflow-source-hint:(lo,None)', 'overflow-source-hint:lies:(0,Some(0))', 'overflow-source-hint:lies:(MAX,None)',
+               'insert:absent:N=0', 'insert:absent:N=4', 'insert:absent:N=8+', 'insert:present:N=4', 'insert_key_value:absent:N=1', 'checked_insert:absent:N=2', 'checked_insert:present:N=3',
                'entry.or_insert:absent', 'entry.or_insert_with:absent', 'entry.or_insert_with_key:absent', 'entry.or_default:absent', 'VacantEntry::insert|OccupiedEntry::insert:absent',
                'VacantEntry::insert|OccupiedEntry::insert:present', 'Set::insert:absent:N=0', 'Set::insert:absent:N=4', 'Set::replace:absent', 'Set::replace:present', 'Set::extend(one):absent',
                'Set::extend(two):absent', 'Map::from_iter(overflow):N=0', 'Map::from_iter(overflow):N=3', 'Set::from_iter(overflow):N=1', 'Map::from_iter(repeats beyond N):N=2', 'Set::from_iter(repeats beyond N):N=4', 'zst:absent:N=0', 'zst:absent:N=16', 'zst:present', 'with_capacity'],
